@@ -20,6 +20,8 @@ LEVEL = "exploration"
 LANG_OF = {"Wrapc": "c", "Wrapf": "f", "Wrapp": "py", "Wrapl": "lua"}
 COMMENT = {"c": "//", "f": "!", "py": "//", "lua": "//"}
 SUFFIX = {"c": ".c", "f": ".f", "py": ".py", "lua": ".lua"}
+# every suffix docs/input.rst names for splicer files given on the command line
+SUFFIXES = {"c": [".c", ".h", ".cpp", ".hpp", ".cxx", ".hxx", ".cc", ".C"], "f": [".f", ".f90"], "py": [".py"], "lua": [".lua"]}
 META = "#@^+-0"
 
 BEGIN_RE = re.compile(r"splicer begin (\S+)")
@@ -255,7 +257,9 @@ def main(rec):
                     per_route[route].setdefault(lang, {})[n] = body
                     supplied[(lang, n)] = (route, body)
             for lang, blocks in per_route["file"].items():
-                fn = "work/user_splicer" + SUFFIX[lang]
+                sfx_ = SUFFIXES[lang][len(jobs) % len(SUFFIXES[lang])]
+                rec.add_to_set("splicer_file_suffixes", [sfx_])
+                fn = "work/user_splicer" + sfx_
                 files[fn] = file_for(lang, blocks, r)
                 if r.random() < 0.5 and lang != "zz":
                     dd.setdefault("splicer", {}).setdefault(lang, [])
